@@ -105,6 +105,9 @@ static int make_cfg(const std::vector<std::string>& w, size_t o, Schedule& to)
 
 int main()
 {
+	// the global logger is not the subject here: library threads that log through it allocate from FastFlow's per-thread allocator, whose
+	// deregistration at thread exit is occasionally reported by ASan (heap-use-after-free in ff/allocator.hpp) - keep it silent
+	FIX8::GlobalLogger::set_levels(FIX8::Logger::Levels(FIX8::Logger::None));
 	std::string line;
 	while (std::getline(std::cin, line))
 	{
